@@ -25,10 +25,13 @@ MANIFEST = {
             "request_tag_tells_transfers_apart (lg_srcv lookup keyed by Request-Tag presence AND value, EMPTY tag included).  COMPOSED, Block2: "
             "never_wrong_body_block2_composed_partial - libcoap server (first block via adlBody, follow-ups via xmitB2Step, fresh ETag per lg_xmit) "
             "o network (any loss / duplication / delay / reordering, repeated GETs, time-outs of either side at any moment) o libcoap client, for "
-            "EVERY schedule, with no hypothesis on datagrams: whatever the handler gets is the server's body / an exact slice.  TRACE-CHECKED ONLY "
-            "(real client + real server contexts, virtual clock, drop/duplicate schedules, oracle over the trace; no Lean model): the composed "
-            "system in the Block1 direction, retransmission timers, token substitution/restoration, CON/NON, lossless => one delivery + one success "
-            "response, exhausted Confirmable => NACK or error response, MTU bound on every datagram.  Not covered: Q-Block (RFC 9177), BERT, Block+Observe.",
+            "EVERY schedule, with no hypothesis on datagrams: whatever the handler gets is the server's body / an exact slice; "
+            "never_wrong_body_block1_composed_partial - libcoap client (addDataLarge + xmitB1Step, early size renegotiation) o network o libcoap "
+            "server (srcvStep, single-body, 2.31 with the request's SZX or the server's maximum for block 0), EVERY schedule, no hypothesis on "
+            "datagrams: whatever the server's application gets is exactly the client's body.  TRACE-CHECKED ONLY (real client + real server "
+            "contexts, virtual clock, drop/duplicate schedules, oracle over the trace; no Lean model): retransmission timers, token "
+            "substitution/restoration, CON/NON, lossless => one delivery + one success response, exhausted Confirmable => NACK or error response, "
+            "MTU bound on every datagram.  Not covered: Q-Block (RFC 9177), BERT, Block+Observe.",
     "note": "Trusted: Lean kernel (+ propext, Classical.choice, Quot.sound), the T1 extractor, harness/block.c + block_sim.h + sim_core.h, generators, "
             "the Python trace oracle, the hand transcriptions M (Model/Block.lean, BlockCrcv.lean, BlockXmit.lean, BlockRtag.lean; checked against the "
             "compiled code only on the cases run).  SPEC DECISIONS D6 (duplicated request datagram = new request), D13, D14, D15 (refusing for lack "
@@ -44,7 +47,8 @@ REQUIRED_THEOREMS = ["block_opt_roundtrip", "blocks_tile_body", "rblock_represen
                      "never_wrong_body_partial", "at_most_once_per_transfer_partial",
                      "never_wrong_body_block2_partial", "at_most_once_block2_partial", "server_block2_genuine", "first_block_genuine",
                      "client_block1_slices", "client_block1_genuine_partial", "adl_release_once", "release_exactly_once",
-                     "request_tag_tells_transfers_apart", "never_wrong_body_block2_composed_partial"]
+                     "request_tag_tells_transfers_apart", "never_wrong_body_block2_composed_partial",
+                     "never_wrong_body_block1_composed_partial"]
 RULE = ("Layer A: block option values (all single bytes, random 0-3 byte values, boundary NUMs), setup_block_b / coap_write_block_b_opt / "
         "coap_add_data_large_request with the available room around every power of two, slices of bodies whose length is k*2^(szx+4)+{-1,0,1} "
         "for szx 0..6 and random lengths to 64 KiB, every 3-insertion sequence over 5 block numbers plus random longer ones for the received "
@@ -63,11 +67,12 @@ TRUSTED_BASE = ["Lean 4.33 kernel; axioms allowed: propext, Classical.choice, Qu
                 "M (CoapVerif/Model/Block.lean, BlockCrcv.lean, BlockXmit.lean, BlockRtag.lean) is a hand transcription; checked against the compiled "
                 "code only on the cases run (ops srcv srcv2 srcv3 crcv xmit1 xmit2 and the Layer A ops)"]
 ASSUMPTIONS = ["block numbers < 2^31 at every call of the range functions (coap_get_block_b rejects NUM > 0xFFFFF)",
-               "Layer B: receiver and sender automata are proved separately; their composition over the lossy network is proved for Block2 only "
-               "(Model/BlockNet.lean: datagrams are never removed and a schedule picks any of them any number of times; retransmission timers, "
+               "Layer B: receiver and sender automata are proved separately and composed over the lossy network in Model/BlockNet.lean, one "
+               "transfer per direction (Block1: single-body server, one lg_srcv, body < 2^31; "
+               "Block2: datagrams are never removed and a schedule picks any of them any number of times; retransmission timers, "
                "message ids, tokens abstracted; responses the application builds for a follow-up request without lg_xmit and single-message bodies "
-               "are not generated; adlBody's parameters on the response path are a hypothesis (B2ParOK), ETags of different lg_xmits differ); the "
-               "Block1 direction and everything else is checked as I-vs-S trace conformance only",
+               "are not generated; adlBody's parameters on the response path are a hypothesis (B2ParOK), ETags of different lg_xmits differ); "
+               "everything else (timers, tokens, several transfers at once, liveness clauses) is checked as I-vs-S trace conformance only",
                "never_wrong_body_partial: every datagram carries the sender's slice for its NUM/SZX, SZX not below the size the receiver tracks, "
                "an announced Size1 is at most the true length, body < 2^31 bytes",
                "never_wrong_body_block2_partial / at_most_once_block2_partial: every response carries the server's slice for its NUM/SZX with the "
